@@ -37,6 +37,7 @@ import Bmc.Proofs.GenDec.V2Session
 import Bmc.Proofs.GenDec.AES128CBC
 import Bmc.Proofs.EndToEnd.SafeC05
 import Bmc.Proofs.C13Source
+import Bmc.Proofs.SourcePins
 #print axioms Bmc.Proofs.C05.deviceID_total
 #print axioms Bmc.Proofs.C05.deviceID_safe
 #print axioms Bmc.Proofs.C05.chassis_total
@@ -164,3 +165,4 @@ import Bmc.Proofs.C13Source
 #print axioms Bmc.Proofs.EndToEnd.generated_V2Session_safe
 #print axioms Bmc.Proofs.EndToEnd.generated_parseCipherSuiteRecordData_safe
 #print axioms Bmc.Proofs.C13.transport_source
+#print axioms Bmc.Proofs.SourcePins.pinned_sources
